@@ -175,14 +175,14 @@ def add_bpki(T):
         def wrap_pwd(x, c, S, W=W, kind=kind, kl_of=kl_of):
             kl = kl_of(c)
             sec = expand(c["seed"] + "wk", kl) if kind == "priv" else bytes([1 + c["L"] % 16]) + expand(c["seed"] + "wk", kl - 1)
-            return W, [x.out(kl + 120), x.zero(8), x.buf(sec), kl, S, 8 + c["L"] % 30, x.buf(expand(c["seed"] + "salt", 8)), 10000]
+            return W, [x.out(kl + 160), x.zero(8), x.buf(sec), kl, S, 8 + c["L"] % 30, x.buf(expand(c["seed"] + "salt", 8)), 10000]
 
         def wrap_key(x, c, S, W=W, kind=kind, kl_of=kl_of):
             kl = kl_of(c)
             if kind == "share":
                 S.write(bytes([1 + c["L"] % 16]))      # the share number is public
             pw = expand(c["seed"] + "pw", 8 + c["L"] % 30)
-            return W, [x.out(kl + 120), x.zero(8), S, kl, x.buf(pw), len(pw), x.buf(expand(c["seed"] + "salt", 8)), 10000]
+            return W, [x.out(kl + 160), x.zero(8), S, kl, x.buf(pw), len(pw), x.buf(expand(c["seed"] + "salt", 8)), 10000]
 
         def unwrap_badpwd(x, c, S, U=U, kind=kind, kl_of=kl_of):
             kl = kl_of(c)
